@@ -192,10 +192,24 @@ def run_call(call, seq, density=None, natural_density=None, wkind=0, vector=Fals
         comp = seq
         if len(seq) == 1 and seq[0][0] == 1 and core.isatom(seq[0][1]):
             comp = seq[0][1]          # formula(atom): default density of the atom
-        return attempt(fn, comp, density=density, natural_density=natural_density, **kw)
+        return watched(kw, "%s(%r)" % (fn.__name__, seq), lambda: attempt(fn, comp, density=density, natural_density=natural_density, **kw))
     atom = seq[0][1]
     fn = atom.neutron.scattering if call == 2 else atom.neutron.sld
-    return attempt(fn, **kw)
+    return watched(kw, "%r.neutron.%s" % (atom, fn.__name__), lambda: attempt(fn, **kw))
+
+
+# calls that changed an array handed to them (the caller's wavelengths/energies must be left alone)
+ARG_MODIFIED = []
+
+
+def watched(kw, text, thunk):
+    arrs = [(k, v, v.copy()) for k, v in kw.items() if isinstance(v, np.ndarray)]
+    res = thunk()
+    for k, v, before in arrs:
+        if not np.array_equal(v, before, equal_nan=True):
+            ARG_MODIFIED.append("%s overwrote the caller's %s array: %r became %r" % (text, k, before.tolist()[:5], v.tolist()[:5]))
+            v[...] = before
+    return res
 
 
 # ---------------------------------------------------------------- Formula objects carrying their own density
@@ -243,13 +257,13 @@ def run_call_formula(call, fobj, density=None, natural_density=None, wkind=0, ve
             arg = float(wvals[0])
         kw["wavelength" if wkind == 1 else "energy"] = arg
     if call == 4:
-        return attempt(fobj.neutron_sld, **kw)
+        return watched(kw, "Formula.neutron_sld", lambda: attempt(fobj.neutron_sld, **kw))
     fn = nsf.neutron_scattering if call == 0 else nsf.neutron_sld
     if density is not None:
         kw["density"] = density
     if natural_density is not None:
         kw["natural_density"] = natural_density
-    return attempt(fn, fobj, **kw)
+    return watched(kw, "%s(Formula object)" % fn.__name__, lambda: attempt(fn, fobj, **kw))
 
 
 def callf_term(call, fobj, density, natural_density, wkind, vector, wvals, res):
